@@ -2125,6 +2125,14 @@ func (m *Machine) processQueue() Result {
 			// TODO optimize process only when ticks change (incl queue tick)
 			// TODO optimize: check sub ctxs also on canceled txs
 			m.processSubscriptions(t)
+		} else if mut.QueueTick > 0 {
+			// canceled, but the queue tick has advanced
+			m.queueMx.RLock()
+			queueTick := m.queueTick
+			m.queueMx.RUnlock()
+			for _, ch := range m.subs.ProcessWhenQueue(queueTick) {
+				closeSafe(ch)
+			}
 		}
 
 		t.CleanCache()
